@@ -88,7 +88,18 @@ impl<'a> PinnedInput<'a> {
 
     fn slice_ref(&self, subset: &'a [u8]) -> JsonSlice<'a> {
         match self {
-            Self::FastStr(f) => JsonSlice::FastStr(f.slice_ref(as_str(subset))),
+            Self::FastStr(f) => {
+                let shared = f.slice_ref(as_str(subset));
+                // is the pinned text itself stored inline (inside the box), or in a buffer shared with the caller?
+                let start = &**f as *const FastStr as usize;
+                let inline = (start..start + std::mem::size_of::<FastStr>()).contains(&(f.as_ptr() as usize));
+                if !inline && shared.as_ptr() != subset.as_ptr() {
+                    // a short sub-text would be copied inline: borrow the shared buffer, which lives for 'a
+                    JsonSlice::Raw(subset)
+                } else {
+                    JsonSlice::FastStr(shared)
+                }
+            }
             Self::Slice(_) => JsonSlice::Raw(subset),
         }
     }
